@@ -2,6 +2,8 @@ package checks
 
 import (
 	"fmt"
+	"github.com/NVIDIA/KAI-scheduler/pkg/scheduler/framework"
+	rs "github.com/NVIDIA/KAI-scheduler/pkg/scheduler/plugins/proportion/resource_share"
 	"strings"
 
 	"time"
@@ -60,6 +62,33 @@ func registerSched() {
 		Assume: []string{"min-runtime verdicts are taken only when the workload's start time is more than 5 minutes away from the protection boundary (generator uses now-10h / now-1m with 1h min-runtimes)",
 			"for consolidation the statement does not say which min-runtime applies: a victim counts as protected only if it is inside both the preempt and the reclaim min-runtime",
 			"the commit-together clauses are skipped for an action in which a Bind/Evict call failed"}})
+	var c07in *oracle.C07Input
+	run.Register(&SchedCheck{Id: "C07", Profile: "fairness", Quick: 400, Thorough: 8000,
+		Hooks: func(c *spec.Case, sink *[]run.Violation, st *oracle.Stats) sched.Hooks {
+			return sched.Hooks{AfterOpen: func(ssn *framework.Session, rc *sched.RecCache) {
+				c07in = nil
+				qs := mon.QueuesOf(sched.CurrentProportion)
+				if qs == nil {
+					return
+				}
+				in := &oracle.C07Input{Fair: map[string]oracle.Res{}, SchedAlloc: map[string]oracle.Res{}}
+				for id, q := range qs {
+					f, a := q.GetFairShare(), q.GetAllocatedShare()
+					in.Fair[string(id)] = oracle.Res{GPU: f[rs.GpuResource], CPU: f[rs.CpuResource], Mem: f[rs.MemoryResource]}
+					in.SchedAlloc[string(id)] = oracle.Res{GPU: a[rs.GpuResource], CPU: a[rs.CpuResource], Mem: a[rs.MemoryResource]}
+				}
+				c07in = in
+			}}
+		},
+		Oracle: cycNoFailedCalls(func(m *oracle.Model, events []sched.Event, cycle int, st *oracle.Stats) []run.Violation {
+			in := c07in
+			c07in = nil
+			return oracle.CheckC07(m, events, cycle, st, in)
+		}),
+		RuleText: genRule + "Every statement commit of the reclaim action is one decision: allocation per queue (requests of bound/binding/running non-terminating pods rolled up the tree, updated by every earlier event of the cycle) before and after the decision, deserved quota from the Queue specs, fair share as computed by the scheduler at session open (proportion hook). Clauses: no victim queue (lifted to the level where it diverges from the reclaimer) that was within deserved quota in every resource before its last victim was taken; reclaimer queue within fair share in the received resources; non-preemptible reclaimer within deserved quota at every level; no ancestor above fair share and at least as saturated as a sibling it took from (multiplier 1). Non-trivial: a case with >= 1 judged reclaim decision.",
+		Assume: []string{"a decision is judged only if the harness' allocation model and the scheduler's own per-queue allocation agree at session open for every queue involved (disagreements are C14's business)",
+			"a victim re-nominated in the same decision takes nothing from its queue", "equal saturation ratios are flagged only for cpu/memory or integral GPU allocations (float ties otherwise)",
+			"cycles in which a Bind/Evict call failed are not judged"}})
 	run.Register(&SchedCheck{Id: "C08", Profile: "limits", Quick: 320, Thorough: 6000, Oracle: cycNoFailedCalls(oracle.CheckC08),
 		RuleText: genRule + "Non-trivial: a case in which a placement ended within one pod request of a finite queue limit or (non-preemptible) of a finite deserved quota.",
 		Assume: []string{"allocation model: requests of bound/binding/running non-terminating pods plus this cycle's binds and nominations minus evictions, rolled up the queue tree; terminating pods are not counted (weaker than the scheduler's own charge, hence sound)",
